@@ -434,10 +434,10 @@ def stage (name : String) (model impl : String) (float : Bool := false) : Option
   if model == impl || (float && capClose model impl) then none else some (.diff s!"{name}:{model}")
 
 /-- the verdict when the property predicate is false on the implementation's answers: the documented class if
-the only thing that moved is a cap radius, by a few units in the last place -/
+the tree holds a cap query and nothing but cap radii moved, by a few units in the last place (this includes the
+case where the printed radii agree again but Go's `Equal` compares the two caps' chord angles and says no) -/
 def failVerdict (clause : String) (e e' p p' : String) : Verdict :=
-  if isSExp e && isSExp e' && isSExp p && isSExp p' && mentionsCap e && capClose e e' && capClose p p' &&
-      !(e == e' && p == p') then
+  if isSExp e && isSExp e' && isSExp p && isSExp p' && mentionsCap e && capClose e e' && capClose p p' then
     .propfail (clause ++ " class=cap-radius-drift")
   else .propfail clause
 
